@@ -494,6 +494,23 @@ def check_leaper(ctx, label, terms, deltas, where, folded=None):
     ctx.check(set(got) == set(deltas), "%s:steps" % label, "%s steps are %s" % (label, sorted(got)), where, bad_what="%s has steps %s, the rules give %s" % (label, sorted(got), sorted(deltas)))
 
 
+def reader_index_is_square(ix, r):
+    """The (last) index of a table read `T[..][IDX]` folds to rank*8+file of the parameter `square` for all 64 squares."""
+    idxs = [x for x in walk(r) if isinstance(x, tuple) and x[0] == "call" and x[1].endswith("::index") and len(x[2]) == 2 and "square" in expr_str(x[2][1])]
+    idxs += [x for x in walk(r) if isinstance(x, tuple) and x[0] == "index" and "square" in expr_str(x[2])]
+    if not idxs:
+        return False
+    e = idxs[0][2][1] if idxs[0][0] == "call" else idxs[0][2]
+    for sq in range(64):
+        try:
+            v = fold_tree(ix, e, {"square": {"rank": sq // 8, "file": sq % 8}, "square.rank": sq // 8, "square.file": sq % 8})
+        except Undef:
+            return False
+        if v != sq:
+            return False
+    return True
+
+
 def rule_leapers(ctx):
     ix = ctx.ix
 
@@ -515,7 +532,8 @@ def rule_leapers(ctx):
         rd = ctx.body("<board::piece::%s::%s as board::piece::Precomputed>::get_attacks" % (name, name.capitalize()))
         r = ctx.sym(rd).local(0)
         st = [x[1] for x in walk(r) if isinstance(x, tuple) and x[0] == "static"]
-        ctx.check(st == ["board::piece::%s::ATTACKS" % name] and "Square::u8(square)" in expr_str(r), "%s:reader" % name, "%s::get_attacks reads ATTACKS[square.u8()]" % name, rd.where(0), bad_what="%s::get_attacks returns `%s`" % (name, expr_str(r)[:100]))
+        ctx.check(st == ["board::piece::%s::ATTACKS" % name] and reader_index_is_square(ix, r), "%s:reader" % name, "%s::get_attacks reads ATTACKS[index of the square] (folded for all 64 squares)" % name, rd.where(0),
+                  bad_what="%s::get_attacks returns `%s`" % (name, expr_str(r)[:100]))
     pb = ctx.body("<board::piece::pawn::Pawn as board::piece::PrecomputedColor>::init_attacks")
     psym = ctx.sym(pb)
     rows = {}
@@ -533,7 +551,7 @@ def rule_leapers(ctx):
         check_leaper(ctx, "pawn-%s" % cname, terms, G.PAWN_DELTAS[cname], pb.where(0), fold_leaper(ix, rows.get(ci)) if rows.get(ci) else None)
     prd = ctx.body("<board::piece::pawn::Pawn as board::piece::PrecomputedColor>::get_attacks")
     r = ctx.sym(prd).local(0)
-    ctx.check("color" in expr_str(r) and "Square::u8(square)" in expr_str(r), "pawn:reader", "Pawn::get_attacks reads ATTACKS[color][square.u8()]", prd.where(0), bad_what="Pawn::get_attacks returns `%s`" % expr_str(r)[:100])
+    ctx.check("color" in expr_str(r) and reader_index_is_square(ix, r), "pawn:reader", "Pawn::get_attacks reads ATTACKS[color][index of the square]", prd.where(0), bad_what="Pawn::get_attacks returns `%s`" % expr_str(r)[:100])
 
 
 def rule_queen(ctx):
